@@ -223,5 +223,279 @@ example : orient ((0 : ℚ), (0 : ℚ)) (0, 2) (2, 0) < 0 := by norm_num [orient
 
 end Field
 
+/-! ### theorems about the model of the algorithm -/
+
+/-- **bw_vertices_are_inputs**: `BowyerWatson` emits one vertex per input point, vertex `i` = `(xᵢ, 0, yᵢ)` -/
+theorem bw_vertices_are_inputs {α : Type} [Zero α] (pts : List (Pt α)) :
+    (bwVertices pts).length = pts.length ∧
+      ∀ i (hi : i < pts.length), (bwVertices pts)[i]'(by simpa [bwVertices] using hi) = ((pts[i]).1, 0, (pts[i]).2) := by
+  refine ⟨by simp [bwVertices], ?_⟩
+  intro i hi
+  simp [bwVertices]
+
+section Ring
+variable {R : Type} [CommRing R] [LinearOrder R] [IsStrictOrderedRing R]
+
+/-- **bw_indices_lt**: no super-triangle vertex survives — for every point function, every map
+    enumeration `env` (no assumption on it at all) and every `n` -/
+theorem bw_indices_lt (P : Nat → Pt R) (env : List Tri → List Tri) (n : Nat) :
+    ∀ t ∈ bw P env n, t.1 < n ∧ t.2.1 < n ∧ t.2.2 < n := by
+  intro t ht
+  simp only [bw, List.mem_filter, touchesSuper, Bool.not_eq_true', Bool.or_eq_false_iff,
+    decide_eq_false_iff_not, Nat.not_le] at ht
+  exact ⟨ht.2.1.1, ht.2.1.2, ht.2.2⟩
+
+theorem mem_insertTri {t u : Tri} {tris : List Tri} (h : u ∈ insertTri t tris) : u = t ∨ u ∈ tris := by
+  unfold insertTri at h
+  split at h
+  · exact Or.inr h
+  · rcases List.mem_append.mp h with h | h
+    · exact Or.inr h
+    · exact Or.inl (by simpa using h)
+
+/-- the triangle added by `fillHole` is never counter-clockwise (the winding fix-up) -/
+theorem fanTri_not_ccw (P : Nat → Pt R) (e : Edge) (pi : Nat) :
+    orient (P (fanTri P e pi).1) (P (fanTri P e pi).2.1) (P (fanTri P e pi).2.2) ≤ 0 := by
+  unfold fanTri
+  split
+  · rename_i h
+    simp only [ccw, decide_eq_true_eq] at h
+    have : orient (P e.1) (P pi) (P e.2) = - orient (P e.1) (P e.2) (P pi) := by
+      simp only [orient]; ring
+    simp only [this]; linarith
+  · rename_i h
+    simp only [ccw, decide_eq_true_eq, not_lt] at h
+    exact h
+
+theorem fillHole_inv (P : Nat → Pt R) (Q : Tri → Prop) (pi : Nat) (poly : List Edge)
+    (hq : ∀ e ∈ poly, Q (fanTri P e pi)) :
+    ∀ tris : List Tri, (∀ t ∈ tris, Q t) → ∀ t ∈ fillHole P poly pi tris, Q t := by
+  induction poly with
+  | nil => intro tris h; simpa [fillHole] using h
+  | cons e es ih =>
+    intro tris h
+    simp only [fillHole, List.foldl_cons]
+    apply ih (fun e' he' => hq e' (List.mem_cons_of_mem _ he'))
+    split
+    · exact h
+    · intro t ht
+      rcases mem_insertTri ht with rfl | ht
+      · exact hq e (List.mem_cons_self ..)
+      · exact h t ht
+
+theorem step_inv (P : Nat → Pt R) (env : List Tri → List Tri) (Q : Tri → Prop) (pi : Nat)
+    (tris : List Tri) (h : ∀ t ∈ tris, Q t)
+    (hq : ∀ e ∈ polygon (badTris P env tris pi), Q (fanTri P e pi)) :
+    ∀ t ∈ step P env tris pi, Q t := by
+  unfold step
+  apply fillHole_inv P Q pi _ hq
+  intro t ht
+  exact h t (List.mem_filter.mp ht).1
+
+/-- invariant rule for the insertion loop: `Q` holds of the initial triangles and of every triangle
+    `fillHole` can add in a state satisfying `Q` ⇒ `Q` holds of every triangle of the final state -/
+theorem loop_inv (P : Nat → Pt R) (env : List Tri → List Tri) (Q : Tri → Prop) (l : List Nat)
+    (hq : ∀ tris : List Tri, (∀ t ∈ tris, Q t) → ∀ pi ∈ l,
+      ∀ e ∈ polygon (badTris P env tris pi), Q (fanTri P e pi)) :
+    ∀ tris : List Tri, (∀ t ∈ tris, Q t) → ∀ t ∈ l.foldl (step P env) tris, Q t := by
+  induction l with
+  | nil => intro tris h; simpa using h
+  | cons pi l ih =>
+    intro tris h
+    simp only [List.foldl_cons]
+    refine ih (fun tr htr pj hpj => hq tr htr pj (List.mem_cons_of_mem _ hpj)) _ ?_
+    exact step_inv P env Q pi tris h (hq tris h pi (List.mem_cons_self ..))
+
+/-- **bw_not_ccw**: if the super-triangle is not counter-clockwise, no triangle of any state of the
+    insertion loop, hence no output triangle, is counter-clockwise — for every enumeration `env` -/
+theorem bw_not_ccw (P : Nat → Pt R) (env : List Tri → List Tri) (n : Nat)
+    (hsuper : orient (P n) (P (n + 1)) (P (n + 2)) ≤ 0) :
+    ∀ t ∈ bw P env n, orient (P t.1) (P t.2.1) (P t.2.2) ≤ 0 := by
+  intro t ht
+  have hl : t ∈ bwLoop P env n := (List.mem_filter.mp ht).1
+  refine loop_inv P env (fun t => orient (P t.1) (P t.2.1) (P t.2.2) ≤ 0) (List.range n)
+    (fun _ _ pi _ e _ => fanTri_not_ccw P e pi) [(n, n + 1, n + 2)] ?_ t hl
+  intro u hu
+  simp only [List.mem_singleton] at hu
+  subst hu; exact hsuper
+
+theorem mem_polygon {bad : List Tri} {e : Edge} (h : e ∈ polygon bad) : ∃ t ∈ bad, e ∈ edges t := by
+  simp only [polygon, List.mem_flatMap, List.mem_filter] at h
+  obtain ⟨⟨t, ti⟩, hmem, he, _⟩ := h
+  exact ⟨t, (List.mem_zipIdx hmem).2.2 ▸ List.getElem_mem _, he⟩
+
+/-- every index used in any state of the loop is a valid index into the `n + 3` points
+    (so the model's total lookup `pointFn` is never asked for a point that does not exist);
+    needs only that the enumeration `env` invents no triangles -/
+theorem bw_all_indices_lt (P : Nat → Pt R) (env : List Tri → List Tri) (n : Nat)
+    (henv : ∀ l, env l ⊆ l) :
+    ∀ t ∈ bwLoop P env n, t.1 < n + 3 ∧ t.2.1 < n + 3 ∧ t.2.2 < n + 3 := by
+  refine loop_inv P env (fun t => t.1 < n + 3 ∧ t.2.1 < n + 3 ∧ t.2.2 < n + 3) (List.range n) ?_
+    [(n, n + 1, n + 2)] ?_
+  · intro tris h pi hpi e he
+    obtain ⟨t, htb, hte⟩ := mem_polygon he
+    have ht := h t (henv _ (List.mem_filter.mp htb).1)
+    have hpi' : pi < n := List.mem_range.mp hpi
+    simp only [edges, List.mem_cons, List.not_mem_nil, or_false] at hte
+    have he' : e.1 < n + 3 ∧ e.2 < n + 3 := by
+      rcases hte with rfl | rfl | rfl <;> simp <;> omega
+    unfold fanTri
+    split <;> simp <;> omega
+  · intro u hu
+    simp only [List.mem_singleton] at hu
+    subst hu; simp
+
+/-- all output triangles have ONE winding, strictly, unless their three points are collinear -/
+theorem bw_cw_of_not_collinear (P : Nat → Pt R) (env : List Tri → List Tri) (n : Nat)
+    (hsuper : orient (P n) (P (n + 1)) (P (n + 2)) ≤ 0) :
+    ∀ t ∈ bw P env n, orient (P t.1) (P t.2.1) (P t.2.2) ≠ 0 → orient (P t.1) (P t.2.1) (P t.2.2) < 0 :=
+  fun t ht hne => lt_of_le_of_ne (bw_not_ccw P env n hsuper t ht) hne
+
+end Ring
+
+section Field
+variable {K : Type} [Field K] [LinearOrder K] [IsStrictOrderedRing K]
+
+theorem minOf_le (x : K) (xs : List K) : minOf x xs ≤ x := by
+  unfold minOf
+  induction xs generalizing x with
+  | nil => simp
+  | cons v vs ih =>
+    simp only [List.foldl_cons]
+    split
+    · exact le_trans (ih v) (le_of_lt ‹v < x›)
+    · exact ih x
+
+theorem le_maxOf (x : K) (xs : List K) : x ≤ maxOf x xs := by
+  unfold maxOf
+  induction xs generalizing x with
+  | nil => simp
+  | cons v vs ih =>
+    simp only [List.foldl_cons]
+    split
+    · exact le_trans (le_of_lt ‹x < v›) (ih v)
+    · exact ih x
+
+/-- the super-triangle `[left, top, right]` is strictly clockwise as soon as the input has positive width -/
+theorem superTriangle_cw (p : Pt K) (ps : List (Pt K))
+    (hw : minOf p.1 (ps.map (·.1)) < maxOf p.1 (ps.map (·.1))) :
+    ∃ l t r, superTriangle p ps = [l, t, r] ∧ orient l t r < 0 := by
+  refine ⟨_, _, _, rfl, ?_⟩
+  have hh : minOf p.2 (ps.map (·.2)) ≤ maxOf p.2 (ps.map (·.2)) :=
+    le_trans (minOf_le _ _) (le_maxOf _ _)
+  generalize minOf p.1 (ps.map (·.1)) = minX at *
+  generalize maxOf p.1 (ps.map (·.1)) = maxX at *
+  generalize minOf p.2 (ps.map (·.2)) = minY at *
+  generalize maxOf p.2 (ps.map (·.2)) = maxY at *
+  simp only [orient]
+  push_cast
+  have e : ((minX + maxX) / 2 - ((minX + maxX) / 2 - (maxX - minX) * 20)) * (minY - 2 - (minY - 2)) -
+      ((minX + maxX) / 2 + (maxX - minX) * 20 - ((minX + maxX) / 2 - (maxX - minX) * 20)) *
+        (maxY + (maxY - minY) * 20 + 2 - (minY - 2)) = -(40 * ((maxX - minX) * (21 * (maxY - minY) + 4))) := by
+    ring
+  rw [e]
+  have : 0 < (maxX - minX) * (21 * (maxY - minY) + 4) := mul_pos (by linarith) (by linarith)
+  linarith
+
+example : minOf (0 : ℚ) ([((4 : ℚ), (0 : ℚ)), (0, 3)].map (·.1)) < maxOf (0 : ℚ) ([((4 : ℚ), (0 : ℚ)), (0, 3)].map (·.1)) := by
+  norm_num [minOf, maxOf]
+
+
+/-- input point `i` is looked up at index `i` -/
+theorem pointFn_input (p : Pt K) (ps : List (Pt K)) (i : Nat) (hi : i < (p :: ps).length) :
+    pointFn p ps i = (p :: ps)[i] := by
+  simp only [pointFn, List.getD_eq_getElem?_getD]
+  rw [List.getElem?_append_left hi, List.getElem?_eq_getElem hi]; rfl
+
+/-- the three super-triangle vertices sit at indices `n, n+1, n+2` -/
+theorem pointFn_super (p : Pt K) (ps : List (Pt K)) (l t r : Pt K) (h : superTriangle p ps = [l, t, r]) :
+    pointFn p ps (p :: ps).length = l ∧ pointFn p ps ((p :: ps).length + 1) = t ∧
+      pointFn p ps ((p :: ps).length + 2) = r := by
+  simp only [pointFn, List.getD_eq_getElem?_getD, h]
+  refine ⟨?_, ?_, ?_⟩ <;> rw [List.getElem?_append_right (by omega)] <;> simp
+
+/-- fewer than three points: panic; otherwise an answer whose indices are all `< n` -/
+theorem bowyerWatson_spec (env : List Tri → List Tri) (pts : List (Pt K)) :
+    (pts.length < 3 → bowyerWatson env pts = none) ∧
+    (∀ tris, bowyerWatson env pts = some tris →
+      3 ≤ pts.length ∧ ∀ t ∈ tris, t.1 < pts.length ∧ t.2.1 < pts.length ∧ t.2.2 < pts.length) := by
+  constructor
+  · intro h
+    match pts, h with
+    | [], _ => rfl
+    | [_], _ => rfl
+    | [_, _], _ => rfl
+    | _ :: _ :: _ :: _, h => simp at h; omega
+  · intro tris h
+    match pts, h with
+    | p :: q :: r :: rest, h =>
+      simp only [bowyerWatson, Option.some.injEq] at h
+      subst h
+      exact ⟨by simp, bw_indices_lt _ env _⟩
+
+/-- public entry point: with positive width every output triangle is not counter-clockwise -/
+theorem bowyerWatson_not_ccw (env : List Tri → List Tri) (p : Pt K) (ps : List (Pt K)) (tris : List Tri)
+    (h : bowyerWatson env (p :: ps) = some tris)
+    (hw : minOf p.1 (ps.map (·.1)) < maxOf p.1 (ps.map (·.1))) :
+    ∀ t ∈ tris, orient (pointFn p ps t.1) (pointFn p ps t.2.1) (pointFn p ps t.2.2) ≤ 0 := by
+  match ps, h with
+  | q :: r :: rest, h =>
+    simp only [bowyerWatson, Option.some.injEq] at h
+    subst h
+    obtain ⟨l, t, r', hs, ho⟩ := superTriangle_cw p (q :: r :: rest) hw
+    obtain ⟨h0, h1, h2⟩ := pointFn_super p (q :: r :: rest) l t r' hs
+    apply bw_not_ccw
+    rw [h0, h1, h2]; exact ho.le
+
+example : (bowyerWatson id [((0 : ℚ), (0 : ℚ)), (4, 0), (0, 3)]).isSome = true := rfl
+
+end Field
+
+/-! ### order of map enumeration, the combined checker, and the full statement (NOT a theorem) -/
+
+section Full
+variable {K : Type} [Field K] [LinearOrder K] [IsStrictOrderedRing K]
+
+/-- **bw_order_independent_partial**: the bad-triangle SET of an insertion does not depend on the order
+    in which the Go map is enumerated (the hole boundary is computed from it by `polygon`) -/
+theorem bw_order_independent_partial (P : Nat → Pt K) (env : List Tri → List Tri)
+    (henv : ∀ l, (env l).Perm l) (tris : List Tri) (pi : Nat) :
+    (badTris P env tris pi).Perm (badTris P id tris pi) := by
+  unfold badTris
+  exact (henv tris).filter _
+
+/-- what one run of the oracle establishes about an implementation output `tris` -/
+theorem c20_checkers_sound (P : Nat → Pt K) (n : Nat) (tris : List Tri)
+    (h : (indicesOk n tris && windingOk P tris && delaunayOk P n tris && noOverlapOk P tris) = true) :
+    (∀ t ∈ tris, t.1 < n ∧ t.2.1 < n ∧ t.2.2 < n) ∧
+    (∀ t ∈ tris, orient (P t.1) (P t.2.1) (P t.2.2) < 0) ∧
+    tris.Pairwise (fun t u => ¬ Overlap P t u) ∧
+    (∀ t ∈ tris, ∀ i < n, ¬ StrictlyInsideCircumcircle (P t.1) (P t.2.1) (P t.2.2) (P i)) := by
+  simp only [Bool.and_eq_true] at h
+  obtain ⟨⟨⟨h1, h2⟩, h3⟩, h4⟩ := h
+  exact ⟨indices_check_sound n tris h1, winding_check_sound P tris h2, overlap_check_sound P tris h4,
+    delaunay_check_sound P n tris h2 h3⟩
+
+/-- general position of the first `n` points: no three collinear, no four cocircular -/
+def GeneralPosition (P : Nat → Pt K) (n : Nat) : Prop :=
+  (∀ i j k, i < j → j < k → k < n → orient (P i) (P j) (P k) ≠ 0) ∧
+  (∀ i j k l, i < j → j < k → k < l → l < n → inCircleDet (P i) (P j) (P k) (P l) ≠ 0)
+
+/-- The full property about the model of `bowyerWatson` — **NOT proved** (correctness of Bowyer–Watson
+    with a finite super-triangle).  Its clauses are decided per run by the verified checkers above,
+    applied to the implementation's output. -/
+def C20_full (K : Type) [Field K] [LinearOrder K] [IsStrictOrderedRing K] : Prop :=
+  ∀ (env : List Tri → List Tri), (∀ l, (env l).Perm l) →
+  ∀ (p : Pt K) (ps : List (Pt K)), 2 ≤ ps.length →
+    GeneralPosition (pointFn p ps) (ps.length + 1) →
+    ∃ tris, bowyerWatson env (p :: ps) = some tris ∧
+      (∀ t ∈ tris, t.1 < ps.length + 1 ∧ t.2.1 < ps.length + 1 ∧ t.2.2 < ps.length + 1) ∧
+      (∀ t ∈ tris, orient (pointFn p ps t.1) (pointFn p ps t.2.1) (pointFn p ps t.2.2) < 0) ∧
+      tris.Pairwise (fun t u => ¬ Overlap (pointFn p ps) t u) ∧
+      (∀ t ∈ tris, ∀ i < ps.length + 1,
+        ¬ StrictlyInsideCircumcircle (pointFn p ps t.1) (pointFn p ps t.2.1) (pointFn p ps t.2.2) (pointFn p ps i))
+
+end Full
+
 end C20
 end PolyVerif
